@@ -3,6 +3,7 @@ import importlib
 import json
 import math
 import os
+import re
 import struct
 
 from gen.enums import E
@@ -11,8 +12,10 @@ from gen.models import ModelGen
 META = {
     "technique": "Lean 4 proof over a hand model of mj_constraintUpdate_impl (per-row laws and the three-zone elliptic cone block), "
                  "mju_mulMatTVec, mju_decodePyramid and the PGS projectCone + bitwise differential correspondence of the model "
-                 "(run on IEEE doubles) with the compiled functions of the tree + admissibility oracle on mj_forward output for "
-                 "every solver x cone",
+                 "(run on IEEE doubles) with the compiled functions of the tree + statement-level model of mj_fwdConstraint / "
+                 "warmstart / dualFinish / mj_constraintUpdate on the arrays the property observes, tied to the C text by a "
+                 "translator, with qfrc_constraint = J' efc_force proved for every content of the mjData at entry + admissibility "
+                 "oracle on mj_forward output for every solver x cone, on fresh mjData and after histories of calls on one mjData",
     "text": "Proved over the reals for all residuals and all parameters in the stated ranges: friction-loss forces satisfy "
             "|f| <= frictionloss; limit / frictionless / pyramidal-edge forces are >= 0; in every zone of the elliptic block the "
             "normal force is >= 0 and bounds the friction-weighted tangential norm (middle zone: equality, i.e. on the cone "
@@ -22,7 +25,16 @@ META = {
             "the edge forces as normal force (>= 0) and a friction vector inside the pyramid. The hand-written model performs the "
             "same floating-point operations in the same order as the C code and is compared bit-for-bit with the exported "
             "functions on synthetic rows (every row kind, condim 1..6, zone interiors and exact zone boundaries, non-finite "
-            "values) and on the efc arrays of generated scenes.",
+            "values) and on the efc arrays of generated scenes. "
+            "Call histories: mj_fwdConstraint, the static warmstart, dualFinish / mj_dualFinish and mj_constraintUpdate are modelled "
+            "statement by statement (guarded statement lists; translate/c11_fwdskel.py extracts the same lists from the C text on "
+            "every run, so a statement that is added, dropped, moved behind the `if (!nefc) return` or re-guarded breaks the tie). "
+            "Proved for EVERY content of qfrc_constraint / ifrc_constraint / efc_force / iefc_force at entry (= every history of "
+            "earlier calls on the same mjData), nefc = 0 or > 0, islands or monolithic, PGS / CG / Newton, noslip on/off, warm or "
+            "cold start: the call returns with qfrc_constraint = J' efc_force (fwdConstraint_spec, fwdConstraint_qfrc_eq_JTf) and "
+            "the result does not depend on the content at entry (fwdConstraint_history_independent); warmstart and mj_dualFinish "
+            "refine their bodies. The solvers themselves are abstract leaves (hypotheses Leaves.WF: J'f has nv entries and "
+            "vanishes at dofs outside every island, checked on the engine's efc_J / map_idof2dof every run).",
     "note": "Admissibility of the forces that the *iterative solvers* return (PGS/CG/Newton after mj_forward) is covered by the "
             "proved law of mj_constraintUpdate_impl for the primal solvers (their efc_force is the output of that function) and by "
             "projectCone + the oracle for PGS; the PGS block update (QCQP) itself is sampled, not modelled. mj_contactForce is "
@@ -30,7 +42,14 @@ META = {
             "solveQCQP / mju_QCQP (friction update of PGS and of the noslip pass) has no Lean model: ellipsoid membership of its "
             "result is an oracle on the real static function; it reports the genuine finding `c11:qcqp-outside-ellipsoid` (early exit "
             "of mju_QCQP with la == 0 reported as 'inactive', reachable with noslip_iterations > 0, elliptic cone, condim 6) through a "
-            "deterministic witness on every seed.",
+            "deterministic witness on every seed. "
+            "Histories on one mjData are sampled: per model 5-13 forward calls separated by re-positioning through qpos (bodies "
+            "lifted off / dropped onto the floor, limited joints moved in / out of range), disable flags flipped (CONSTRAINT, "
+            "EQUALITY, FRICTIONLOSS, LIMIT, CONTACT, ISLAND, WARMSTART), eq_active toggled, solver options changed, mj_step, "
+            "mj_resetData; the full oracle runs after every call, and half of the calls are followed by two re-runs of the real "
+            "mj_fwdConstraint with qfrc_constraint / efc_force / ifrc_constraint / iefc_force pre-filled with arbitrary finite "
+            "values, whose outputs must equal the first call's bit for bit. The leaf contracts of the statement model (what "
+            "mj_sol*, solveIslandTask, mj_solNoSlip* write) are assumptions of the theorems, validated only by these runs.",
 }
 
 USES_GEN = False   # nothing under lean/MjProof/Gen is read or regenerated: runs against a scratch worktree need no exclusive lock
@@ -52,6 +71,7 @@ THEOREMS = [
     "MjProof.C11.fwdConstraint_spec",
     "MjProof.C11.fwdConstraint_qfrc_eq_JTf",
     "MjProof.C11.fwdConstraint_history_independent",
+    "MjProof.C11.warmstart_refines",
     "MjProof.C11.dualFinish_refines",
     "MjProof.C11.constraintUpdate_qfrc_eq_JTf",
 ]
@@ -909,6 +929,13 @@ def qcqp_oracle(line, out):
 
 
 # ------------------------------------------------------------------------------------------ mj_fwdConstraint skeleton tie
+TRACKED = "qfrc_constraint|efc_force|ifrc_constraint|iefc_force"
+# functions that receive the (non-const) mjData in a statement modelled as Prim.other; none of them writes a tracked array:
+# stack bookkeeping, M*v and J*v products into a caller-supplied result vector
+CONST_FIRST = {"mju_dot"}     # functions whose first argument is a const input
+D_READERS = {"mj_markStack", "mj_freeStack", "mjSTACKALLOC", "mj_mulM", "mj_mulJacVec"}
+
+
 def skeleton_tie(ctx):
     """T: the statement lists the theorems fwdConstraint_* are about (lean/MjProof/Model/FwdConstraint.lean, printed by
     drv_c11fwd) == the guarded statements extracted from the C text of the tree (translate/c11_fwdskel.py)"""
@@ -923,9 +950,11 @@ def skeleton_tie(ctx):
     if not drv:
         return
     names = list(table)
-    execs = ["exec %d %d %s %d 4 0 2" % (nr, isl, sol, ns) for nr in (0, 1) for isl in (0, 1) for sol in ("pgs", "cg", "newton") for ns in (0, 1)]
-    rc, out, err = ctx.run_lines([drv], ["skel " + f for f in names] + execs + ["skel nosuch", "exec 0 0 cg 0 2 5", "exec 2 0 cg 0 2"])
-    if rc != 0 or len(out) != len(names) + len(execs) + 3:
+    execs = ["exec %d %d %s %d %d %d 4 0 2" % (nr, isl, sol, ns, wm, zb) for nr in (0, 1) for isl in (0, 1) for sol in ("pgs", "cg", "newton")
+             for ns in (0, 1) for wm in (0, 1) for zb in (0, 1)]
+    rc, out, err = ctx.run_lines([drv], ["skel " + f for f in names] + execs + ["others " + f for f in names] +
+                                 ["skel nosuch", "exec 0 0 cg 0 1 0 2 5", "exec 2 0 cg 0 1 0 2"])
+    if rc != 0 or len(out) != 2 * len(names) + len(execs) + 3:
         ctx.oblige("drv_c11fwd answers", "model-build", False, err[-500:])
         return
     for f, o in zip(names, out):
@@ -937,11 +966,23 @@ def skeleton_tie(ctx):
                    "translator", bool(ref) and not diff, "first differences: " + json.dumps(diff[:6]))
         ctx.count(("skeleton", f), nontrivial=True)
     sym = out[len(names):len(names) + len(execs)]
-    ctx.oblige("symbolic runs of the model from stale content: no configuration is stuck or keeps a stale entry (24 configurations)",
+    ctx.oblige("symbolic runs of the model from stale content: no configuration is stuck or keeps a stale entry (%d configurations)" % len(execs),
                "model-sanity", all(o.startswith("q ") and "stale" not in o.split(" | ")[0] for o in sym), json.dumps(sym[:4]))
+    # the statements the model treats as not writing a tracked array (Prim.other): none of them may name a tracked array in a
+    # written position (first argument of a call, assignment target, address taken) or hand the whole mjData to a function
+    # outside the allow-list below
+    others = [t for o in out[len(names) + len(execs):2 * len(names) + len(execs)] for t in o.split(" ;; ") if t]
+    wr = re.compile(r"&d->(?:%s)\b|(?<![\w>.])d->(?:%s)(?:\[[^\]]*\])?(?:=(?!=)|[-+*/%%&|^]=|\+\+|--)" % ((TRACKED,) * 2))
+    first = re.compile(r"(\w+)\(d->(?:%s)\b" % TRACKED)      # result-first convention of mju_*: the first argument is written
+    whole = re.compile(r"(\w+)\((?:m,)?d[,)]")
+    viol = [t for t in others if wr.search(t) or any(f not in CONST_FIRST for f in first.findall(t))
+            or any(f not in D_READERS for f in whole.findall(t))]
+    ctx.oblige("the %d statements modelled as not writing qfrc_constraint / efc_force / ifrc_constraint / iefc_force name none of "
+               "them in a written position and pass the mjData only to %s" % (len(others), ", ".join(sorted(D_READERS))),
+               "model-sanity", bool(others) and not viol, json.dumps(viol[:6]))
     ctx.oblige("drv_c11fwd refuses malformed ops", "model-sanity", out[-3:] == ["bad-op"] * 3, json.dumps(out[-3:]))
     ctx.extra["fwdConstraint_skeleton"] = table["mj_fwdConstraint"].get("lines", [])
-    ctx.sample({"op": execs[8], "model_output": sym[8]})
+    ctx.sample({"op": execs[40], "model_output": sym[40]})
 
 
 # ------------------------------------------------------------------------------------------ run
@@ -993,7 +1034,11 @@ def run(ctx):
                 "plus non-finite/denormal values; jtv/dec/enc/pc lines for mju_mulMatTVec, mju_{de,en}codePyramid, projectCone; "
                 "`upd` lines dumped from the efc arrays of generated scenes (jar = J qacc - aref). Outputs are compared bit for bit. "
                 "Scenes: gen/models.py bodies over a plane with limits, friction loss, equalities, tendons, every solver x cone x "
-                "dense/sparse, optional noslip and adhesion. A case is distinct by its full line / (model,state,solver,cone)")
+                "dense/sparse, optional noslip and adhesion. Histories: models as above (a quarter with contacts as the only "
+                "constraint kind), one mjData per model, transitions drawn from lift / load / random re-positioning, flag flips, "
+                "eq_active, option changes, step, reset (distribution in history_distribution: transitions, nefc pos->0 / 0->pos "
+                "changes, calls with islands, re-runs with pre-filled outputs). A case is distinct by its full line / "
+                "(model,state,solver,cone) / (history model, call)")
     ctx.lean_props(THEOREMS)
     skeleton_tie(ctx)
     drv = ctx.driver("drv_c11")
